@@ -1,8 +1,7 @@
 (* C03, liveness, fourth part: the number of futures created.  nf p = number of futures the sequential evaluation of p
-   creates (defined along Seq.eval: the continuation of a yield is followed on the specified outcome).  PARTIAL: the
-   function, its equations, the potential and the invariant statement, the initial case, the consequences
-   (termination without any run hypothesis once the invariant is available); the preservation of the invariant by
-   the machine steps is NOT proved (see props/C03.v). *)
+   creates (defined along Seq.eval: the continuation of a yield is followed on the specified outcome).  Here: the
+   function, its equations, the potential and the invariant statement, the initial case, generic preservation lemmas
+   and the consequences; the preservation of the invariant by the machine steps is in MachineC03A.v. *)
 From Asynq Require Import Machine Seq proofs.ProgProofs proofs.MachineFrame proofs.MachineC05 proofs.MachineC08 proofs.MachineC01
   proofs.MachineC03T proofs.MachineC03L proofs.MachineC03P proofs.MachineNoUnwind.
 
